@@ -58,7 +58,7 @@ pub fn generate(ctx: &mut Ctx) {
             bi += 1;
         }
     }
-    let n = ctx.random_budget(96, 120_000, 1_500_000);
+    let n = ctx.random_budget(96, 120_000, 6_000_000);
     for i in 0..n {
         let mut rng = ctx.rng("c19", i);
         let mut o = gen::Opts::new(rng.chance(1, 2));
